@@ -30,7 +30,7 @@ def run(ctx):
     rng, drv = ctx.rng, ctx.drv
     pairs = []
     va, vb = impl.leaf_family(ctx, 2, pinv=0.0)
-    pairs.append(("simple x simple", lambda: (impl.poly(va), impl.poly(vb))))
+    pairs.append(("simple x unbounded simple", lambda: (impl.poly(va), impl.poly(vb[::-1]))))
     outer, holes = None, None
     Sc, dc = shapes.make(rng, "connected", 0, 0, drv)
     big = shapes.rand_simple_vs(rng, 0, 0, R=14, n=7)
@@ -46,21 +46,24 @@ def run(ctx):
         "float": lambda A, B: (float(A), float(B.jordans[0])), "moment": lambda A, B: IntegrateShape.polynomial(B, 1, 1), "copy": lambda A, B: copy.deepcopy(B),
         "intersection": lambda A, B: A.jordans[0].intersection(B.jordans[0]),
     }
-    per_op = 5 if ctx.quick else 400
+    per_op = 3 if ctx.quick else 400
+    per_dirty = 12 if ctx.quick else 400
     if ctx.quick:
-        pairs = pairs[:3]
+        pairs = pairs[:2]
+        operations = {k: v for k, v in operations.items() if k in ("or", "and", "B in A", "J in A", "eq", "float", "moment", "copy", "intersection")}
     for pname, mk in pairs:
         A0, B0 = mk()
         ref = (observe(ctx, A0), observe(ctx, B0))
         for oname, op in operations.items():
             A, B = copy.deepcopy(A0), copy.deepcopy(B0)
             try:
-                sites = faults.profile_calls(lambda: op(A, B))
+                nev, dirty, sites, nstates = faults.dirty_points(lambda: op(A, B), (A, B), limit=per_dirty, rng=rng)
             except Exception as ex:
                 ctx.notes.append(f"{oname} on {pname} raises without injection: {ex!r}")
-                sites = []
-            ctx.count("call-events", len(sites))
-            ks = faults.stratified_points(sites, limit=per_op, rng=rng)
+                nev, dirty, sites, nstates = 0, [], [], 0
+            ctx.count("call-events", nev); ctx.count("intermediate-operand-states", nstates); ctx.count("dirty-fault-points", len(dirty))
+            # every distinct intermediate state of the operands (first and last call boundary at which it is visible), plus a stratified sample of all call sites
+            ks = sorted(set(dirty) | set(faults.stratified_points(sites, limit=per_op, rng=rng)))
             # the un-faulted run itself must leave the operands intact as regions
             ctx.check((observe(ctx, A), observe(ctx, B)) == ref, "operation changed its operands (no fault)", {"pair": pname, "operation": oname})
             for i, k in enumerate(ks):
